@@ -188,8 +188,11 @@ class TcpConnection(object):
             self.disconnect()
             return
 
+        sock = self.__socket
         self.__processConnectionTimeout()
-        if self.state == CONNECTION_STATE.DISCONNECTED:
+        if self.state == CONNECTION_STATE.DISCONNECTED or self.__socket is not sock:
+            # timed out; the disconnect callback may already have started a new connection attempt
+            # (possibly on a socket that got the same descriptor number): this event is not for it
             return
 
         if eventType & POLL_EVENT_TYPE.READ or eventType & POLL_EVENT_TYPE.WRITE:
